@@ -53,7 +53,7 @@ class CallMixin(ExprMixin):
     # ------------------------------------------------------------------ call expression
     def eval_call(self, e: ast.Call, st: State, ctx: Ctx):
         # spec builtins needing unevaluated arguments
-        if isinstance(e.func, ast.Name) and ctx.spec and e.func.id in ("old", "forall", "exists"):
+        if isinstance(e.func, ast.Name) and ctx.spec and e.func.id in ("old", "forall", "exists", "implies"):
             return [(st, self.spec_special(e, st, ctx))]
         if isinstance(e.func, ast.Name) and e.func.id == "super" and not e.args:
             self_v = self.lookup_name(self.first_param_name(ctx.func), st, ctx)
@@ -153,9 +153,9 @@ class CallMixin(ExprMixin):
             self.contracts_used.add(key)
             if c.trusted:
                 self.trusted_used.add(key)
-            if fi.is_generator and c.gen in ("copy", "buf", "producer"):
-                # calling a generator function creates a generator object; handled by `yield from` / iteration
-                return [(st, ("$gencall", fi, c, tuple(args), dict(kwargs), env))]
+            if c.gen in ("copy", "buf", "producer"):
+                # calling a generator function creates a generator object (no code runs yet)
+                return [(st, self.new_generator_object(st, ctx, fi, c, args, kwargs, line))]
             return self.apply_contract(st, ctx, fi, c, args, kwargs, line)
         if fi.trusted:
             self.trusted_used.add(key)
@@ -356,10 +356,42 @@ class CallMixin(ExprMixin):
                 cv = ClassVal(self.P.by_relpath[rel].classes[cn]) if rel in self.P.by_relpath else ClassVal(self.P.modules[rel].classes[cn])
                 cname = cn
             obj = st.alloc(ObjMeta("object", cv, t), {})
+            later = []
             for fn_, ft in sh.fields.items():
+                if "gen:" in ft:
+                    later.append((fn_, ft))
+                    continue
                 st.heap[obj.oid][mangle(cname, fn_)] = self.make_symbolic(st, ft, f"{name}_{fn_.lstrip('_')}")
+            for fn_, ft in later:
+                st.heap[obj.oid][mangle(cname, fn_)] = self.make_symbolic_gen(st, ft, f"{name}_{fn_.lstrip('_')}", obj, cname)
             return obj
         raise EngineError(f"unknown type spec {t!r}")
+
+    def make_symbolic_gen(self, st: State, t: str, name: str, owner: Ref, cname: str) -> Any:
+        """`gen:<Class.method>@<owner field>(<arg fields>)` — a *suspended* generator object created by calling the
+        method on the object held in a sibling field; optionally wrapped in opt[...]."""
+        t = t.strip()
+        if t.startswith("opt["):
+            return Opt(smt.fresh(name + "_isnone", smt.Bo), self.make_symbolic_gen(st, t[4:-1], name, owner, cname))
+        assert t.startswith("gen:")
+        spec, _, rest = t[4:].partition("@")
+        recv_field, _, argpart = rest.partition("(")
+        arg_fields = [a.strip() for a in argpart.rstrip(")").split(",") if a.strip()]
+        recv = st.heap[owner.oid][mangle(cname, recv_field)]
+        rcls = META[recv.oid].cls.ci
+        fi = self.P.find_method(rcls, mangle(rcls.name, spec.split(".")[-1]))
+        c = self.R.contracts[fi.key()]
+        frame = self.new_frame(st, None, "contract:" + fi.qualname)
+        args = [recv]
+        for a in arg_fields:
+            v = st.heap[owner.oid][mangle(cname, a)]
+            if isinstance(v, Opt):
+                v = v.val
+            args.append(v)
+        self.bind_params(st, None, fi, frame, args, {}, None)
+        fields = {"$fi": fi, "$c": c, "$frame": frame, "T": smt.fresh(name + "_T", smt.Bytes if c.gen != "producer" else smt.BytesSeq),
+                  "started": True, "finished": False, "pos": smt.fresh(name + "_pos", smt.I)}
+        return st.alloc(ObjMeta("generator", None, fi.qualname), fields)
 
     def split_types(self, s: str) -> list[str]:
         out, depth, cur = [], 0, ""
